@@ -259,10 +259,16 @@ type sub struct {
 	disconnect func()
 	stalled    atomic.Bool
 	gate       chan struct{}
+	gateOnce   sync.Once
+	inCallback atomic.Bool
+	discDone   chan struct{}
 }
+
+func (s *sub) openGate() { s.gateOnce.Do(func() { close(s.gate) }) }
 
 func (s *sub) handle(_ context.Context, r xkv.TxReader) {
 	if s.stalled.Load() {
+		s.inCallback.Store(true)
 		<-s.gate // a subscriber that does not keep up: its handler blocks until the node is closed
 		return
 	}
@@ -385,6 +391,7 @@ type Node struct {
 	internal *sub
 	subs     map[int]*sub
 	stalled  []*sub
+	unsubbing map[int]*sub
 	markerFb atomic.Int64
 	fbWant   int64
 	lWant    int64
@@ -813,6 +820,64 @@ func (c *Cluster) Step(o Op) (rc int) {
 			}
 		}
 		c.barrierAll()
+	case "unsub_begin":
+		// the subscriber's handler blocks mid-callback; it is disconnected in the background (the
+		// Disconnect waits for the callback); meanwhile more forwarded requests than the observable
+		// stream and the relay buffer hold together go by, paced on a subscriber that keeps up
+		n := c.nodes[o.N]
+		if n == nil {
+			return 0
+		}
+		s := n.subs[o.S]
+		if s == nil {
+			return 0
+		}
+		s.gate = make(chan struct{})
+		s.discDone = make(chan struct{})
+		s.stalled.Store(true)
+		c.anyStall = true
+		delete(n.subs, o.S)
+		n.stalled = append(n.stalled, s)
+		if n.unsubbing == nil {
+			n.unsubbing = map[int]*sub{}
+		}
+		n.unsubbing[o.S] = s
+		send := func() {
+			n.lWant++
+			if _, err := c.leaseCl.Send(c.ctx, n.addr, kv.TxRequest{Context: c.ctx, Leaseholder: node.Key(n.key)}); err != nil {
+				panic(fmt.Sprintf("unsub filler: %v", err))
+			}
+		}
+		send()
+		waitFor("gated subscriber mid-callback", func() bool { return s.inCallback.Load() })
+		go func() { s.disconnect(); close(s.discDone) }()
+		time.Sleep(2 * time.Millisecond)
+		cnt := o.Count
+		if cnt <= 0 {
+			cnt = 700
+		}
+		for i := 0; i < cnt; i++ {
+			send()
+			if i%8 == 7 && len(c.missed) == 0 {
+				want := n.lWant - 8
+				c.softWait("subscriber that keeps up, during a pending disconnect", func() bool { return n.internal.empties.Load() >= want })
+			}
+		}
+		c.barrierAll()
+	case "unsub_end":
+		n := c.nodes[o.N]
+		if n == nil || n.unsubbing[o.S] == nil {
+			return 0
+		}
+		s := n.unsubbing[o.S]
+		delete(n.unsubbing, o.S)
+		s.openGate()
+		select {
+		case <-s.discDone:
+		case <-time.After(waitCap):
+			panic(hang{"disconnect never returned"})
+		}
+		c.barrierAll()
 	case "sub":
 		n := c.nodes[o.N]
 		if n == nil {
@@ -1052,9 +1117,10 @@ func (c *Cluster) Dump(withSubs bool) StepDump {
 
 func (n *Node) releaseStalled() {
 	for _, s := range n.stalled {
-		close(s.gate)
+		s.openGate()
 	}
 	n.stalled = nil
+	n.unsubbing = map[int]*sub{}
 }
 
 func (c *Cluster) Close() {
